@@ -299,17 +299,6 @@ theorem spelling_invariant_operator_partial (o : Opts) (ho : o.unionOp = false) 
   exact ⟨(typeHint_eq_print_typing o ho t hw).1, (typeHint_eq_print_operator (withOp o) rfl t hw).1,
     wfB_of_wfU _ h2, h4, h1.denote.symm⟩
 
-theorem opRegionAll_spec (t : DT) (hr : opRegionAll t = true) (o : Opts) (ho : o.unionOp = false) : opRegion o t = true := by
-  obtain ⟨u, s, g⟩ := o
-  simp only [] at ho
-  subst ho
-  simp only [opRegionAll, containerSpellings, List.all_cons, List.all_nil, Bool.and_true, Bool.and_eq_true] at hr
-  cases s <;> cases g
-  · exact hr.1
-  · exact hr.2.2.1
-  · exact hr.2.1
-  · exact hr.2.2.2
-
 /-- PARTIAL, ALL EIGHT SPELLINGS — the headline of C13: for every tree whose names are plain
 (`wfTree`), are not themselves container names (`freeTree`) and that lies inside `opRegionAll`
 (`opRegion` for each container spelling), the texts `DataType.type_hint` builds under ANY two of the
